@@ -267,6 +267,22 @@ pub fn run(tier: &Tier) -> i32 {
             jobs.push(vec![DataDef::Val(None, W::B, 0x11), DataDef::Arr(lab("l1"), W::W, n as u16), DataDef::Val(lab("l2"), W::B, 0x77)]);
             jobs.push(vec![DataDef::Val(None, W::B, 0x11), DataDef::ArrVal(lab("l1"), W::B, 0x33, (n * 2) as u16), DataDef::Val(lab("l2"), W::B, 0x77)]);
         }
+        // the overlay idiom: SET x, definitions, the same or another SET, more (labelled) definitions -
+        // all pairs of SET values incl. equal ones, two definition kinds on each side
+        let sets = [0u16, 1, 2, 0x0100, 0x0FFF, 0xF000, 0xFFFF];
+        for a in sets {
+            for b in sets {
+                for (d1, d2) in [
+                    (DataDef::Val(lab("l1"), W::W, 0x1234), DataDef::Val(lab("l2"), W::B, 0x56)),
+                    (DataDef::ArrVal(lab("l1"), W::B, 0x2A, 40), DataDef::Str(lab("l2"), W::W, "Hi".into())),
+                    (DataDef::Str(lab("l1"), W::B, "overlay".into()), DataDef::Arr(lab("l2"), W::W, 3)),
+                ] {
+                    jobs.push(vec![DataDef::Set(a), d1.clone(), DataDef::Set(b), d2.clone(), DataDef::Val(lab("l3"), W::B, 0x7E)]);
+                    jobs.push(vec![d1.clone(), DataDef::Set(a), DataDef::Set(b), d2.clone()]);
+                    jobs.push(vec![DataDef::Set(a), d1.clone(), DataDef::Set(b), DataDef::Set(a), d2.clone()]);
+                }
+            }
+        }
         exhaustive_defs.store(jobs.len() as u64, Ordering::Relaxed);
         jobs.par_chunks(256).for_each(|ch| {
             with_worker(|wk| {
@@ -308,7 +324,7 @@ pub fn run(tier: &Tier) -> i32 {
     c.sample(json!({"alphabet": alpha.iter().map(|d| join_toks(&data_toks(d)).chars().take(40).collect::<String>()).collect::<Vec<_>>()}));
     let mut cov = Coverage::default();
     cov.exhaustive = true;
-    cov.rule = format!("all sequences of 1..={} definitions over a {}-item alphabet (SET with 5 segment values incl. 0xF000/0xFFFF so that images wrap at 1 MB; DB/DW single values at the signed/unsigned extremes, zero arrays and value arrays with counts 0..65535, strings of length 0,1,2,17; about half of them labelled){}: the program is assembled by the real Preprocessor, loaded by the real DataParser, and the WHOLE 1 MB is compared with an independently computed image; every label is checked through the assembler's label map, through OFFSET in an instruction and through a load via the label operand with DS set to its segment; more than 64 KiB in one segment must be diagnosed (exactly 64 KiB: either). Plus, exhaustively per constant class: all 65536 SET values, all 384 DB values, all (quick: every third) DW values -32768..65535, array counts 0..32767 (quick: every fifth) for zero and value arrays, each behind one odd byte and followed by a labelled definition. CLI: DS=0000 at start", maxlen, n, if tier.thorough { " plus all sequences of 4 over a third of the alphabet" } else { "" });
+    cov.rule = format!("all sequences of 1..={} definitions over a {}-item alphabet (SET with 5 segment values incl. 0xF000/0xFFFF so that images wrap at 1 MB; DB/DW single values at the signed/unsigned extremes, zero arrays and value arrays with counts 0..65535, strings of length 0,1,2,17; about half of them labelled){}: the program is assembled by the real Preprocessor, loaded by the real DataParser, and the WHOLE 1 MB is compared with an independently computed image; every label is checked through the assembler's label map, through OFFSET in an instruction and through a load via the label operand with DS set to its segment; more than 64 KiB in one segment must be diagnosed (exactly 64 KiB: either). Plus, exhaustively per constant class: all 65536 SET values, all 384 DB values, all (quick: every third) DW values -32768..65535, array counts 0..32767 (quick: every fifth) for zero and value arrays, each behind one odd byte and followed by a labelled definition; and the overlay idiom (SET a, definitions, SET b [, SET a], labelled definitions) for all 49 pairs of 7 segment values incl. equal and overlapping ones. CLI: DS=0000 at start", maxlen, n, if tier.thorough { " plus all sequences of 4 over a third of the alphabet" } else { "" });
     cov.bounds = json!({"alphabet": n, "max_len": if tier.thorough {4} else {3}, "exhaustive_constant_definitions": exhaustive_defs.load(Ordering::Relaxed), "loaded_and_compared": stats.0.load(Ordering::Relaxed), "diagnosed": stats.1.load(Ordering::Relaxed), "tier": tier.name()});
     cov.assumptions = common_assumptions();
     cov.cli_runs = CLI_RUNS.load(Ordering::Relaxed);
